@@ -90,7 +90,7 @@ def err(v):
 
 
 class Evaluator:
-    def __init__(self, facts, inline=None, max_depth=6, opaque_calls=None, models=None):
+    def __init__(self, facts, inline=None, max_depth=6, opaque_calls=None, models=None, macro_hooks=None):
         """inline(path) -> bool: which local functions are inlined (default: all).  opaque_calls(path)
         -> bool: local/external functions recorded as effects without evaluation."""
         self.F = facts
@@ -99,6 +99,7 @@ class Evaluator:
         self.max_depth = max_depth
         self.seq = 0
         self.models = models or {}
+        self.macro_hooks = macro_hooks or {}
 
     # ------------------------------------------------------------------ helpers
     def fresh(self):
@@ -276,6 +277,13 @@ class Evaluator:
         return out
 
     def ev_block(self, n, st, fp):
+        if self.macro_hooks and n.get("mac"):
+            for mname in n["mac"]:
+                h = self.macro_hooks.get(mname)
+                if h is not None:
+                    r = h(self, n, st, fp)
+                    if r is not None:
+                        return r
         acc = [st]
         for stmt in n["stmts"]:
             nxt = []
@@ -1007,7 +1015,8 @@ def m_get_insn(ev, vals, n, s, path, gens):
     idx = vals[1]
     prog = vals[0]
     flds = [("opc", 8), ("dst", 8), ("src", 8), ("off", 16), ("imm", 32)]
-    return [(struct("ebpf::Insn", "Insn", [(f, ("v", ("insn", idx, f), w)) for f, w in flds]),
+    ov = getattr(ev, "insn_override", None) or {}
+    return [(struct("ebpf::Insn", "Insn", [(f, ov.get(f, ("v", ("insn", idx, f), w))) for f, w in flds]),
              s.effect(("get_insn", prog, idx)))]
 
 
